@@ -369,7 +369,7 @@ def value_class(values, pred, tau=RDF_TYPE):
     """the key component of the property texts: literal datatype | 'nonliteral' | class value"""
     v = values[0]
     if pred == tau:
-        return v
+        return v[1:-1] if v.startswith("[") and v.endswith("]") else v
     if v in ("IRI", "BNode", "NONLITERAL") or v.startswith("@"):
         return "nonliteral"
     return v
